@@ -260,9 +260,14 @@ func (c13) Execute(h *core.History) *core.Outcome {
 		case "define":
 			r1 := real.Input(e.Text, nil)
 			prog, errs := parseProg(e.Text)
-			if len(errs) > 0 || r1.Class != "value" {
+			if len(errs) > 0 {
 				st.Discarded = true
-				st.Panic(fmt.Sprintf("macro definition rejected: %q %v %s", trunc(e.Text, 200), truncAll(errs), r1.Class))
+				st.Panic(fmt.Sprintf("macro definition does not parse: %q %v", trunc(e.Text, 200), truncAll(errs)))
+				break
+			}
+			if r1.Class != "value" || strings.TrimSpace(r1.Out+r1.Echo) != "" {
+				// an input made only of macro definitions must be swallowed entirely: nothing left to evaluate
+				fail(i, "definition-removed", fmt.Sprintf("the definitions %q were submitted as one input: outcome %s %v, output %q", trunc(e.Text, 300), r1.Class, truncAll(r1.Errs), trunc(r1.Out+r1.Echo, 100)))
 				break
 			}
 			api.St.DefineMacros(prog)
